@@ -1,4 +1,4 @@
-import S3V.Thm.FsStorePartCopy
+import S3V.Thm.FsStoreDeleteObjects
 /-!
 # C18: per-operation refinement assembled — `Good`, one step, whole histories
 -/
@@ -39,10 +39,12 @@ instance (s : State) (who : Who) (b k : Bytes) (u : UploadRef) (parts : Option (
 instance (s : State) (b k : Bytes) (u : UploadRef) (n : Int) (sb sk : Bytes) (r : Option Bytes) :
     Decidable (UploadPartCopyOk s b k u n sb sk r) := by
   unfold UploadPartCopyOk; decide_pred
+instance (s : State) (b : Bytes) (keys : List Bytes) : Decidable (DeleteObjectsOk s b keys) := by
+  unfold DeleteObjectsOk; decide_pred
 
 /-- the (state, request) pairs on which the backend is compared with the store. Outside it lie the recorded
     deviations (see the finding classes named at each predicate) and what the theorems do not cover
-    (`delete_objects`; `upload_part_copy` with a range). -/
+    (`upload_part_copy` with a range; error answers of `delete_objects`). -/
 def Good (s : State) : Op → Prop
   | .createBucket b => NameOk b
   | .deleteBucket b => DeleteBucketOk s b
@@ -53,7 +55,7 @@ def Good (s : State) : Op → Prop
   | .getObject b k r => GetOk s b k r
   | .headObject b k => HeadOk s b k
   | .deleteObject b k => DeleteOk s b k
-  | .deleteObjects _ _ => False
+  | .deleteObjects b ks => DeleteObjectsOk s b ks
   | .copyObject sb sk db dk => CopyOk s sb sk db dk
   | .listObjectsV2 b p d _ m => ListOk s b p d m
   | .listObjects b p d _ m => ListOk s b p d m
@@ -87,7 +89,7 @@ theorem step_refines (H : Hashes) (dl : Nat) {s : State} (hi : Inv s) {op : Op} 
   | getObject b k r => have := get_refines H dl hi hg; exact ⟨core_congr this.1, this.2⟩
   | headObject b k => exact head_refines H dl hi hg
   | deleteObject b k => have := delete_refines H dl hi hg; exact ⟨core_congr this.1, this.2⟩
-  | deleteObjects b ks => exact absurd hg (by simp [Good])
+  | deleteObjects b ks => have := deleteObjects_refines H dl hi hg; exact ⟨core_congr this.1, this.2⟩
   | copyObject sb sk db dk => have := copy_refines H dl hi hg; exact ⟨core_congr this.1, this.2⟩
   | listObjectsV2 b p d a m => have := listV2_refines H dl hi (after := a) hg; exact ⟨core_congr this.1, this.2⟩
   | listObjects b p d a m => have := listV1_refines H dl hi (marker := a) hg; exact ⟨core_congr this.1, this.2⟩
